@@ -69,6 +69,16 @@ def gen_case(rnd, tier: str, i: Any) -> Dict[str, Any]:
                     else:
                         e["args"]["memory bandwidth (GB/s)"] = 0.0
         if rnd.random() < 0.25:
+            # one host process driving two devices: the copies of one stream run on device 1 (the bandwidth of a copy type is the sum over
+            # all copies of the rank that are active, whichever device carries them)
+            sts = sorted({e["args"]["stream"] for e in tr["traceEvents"] if e.get("cat") in ("gpu_memcpy", "gpu_memset") and isinstance(e.get("args"), dict) and "stream" in e["args"]})
+            if len(sts) >= 2:
+                s1 = rnd.choice(sts)
+                for e in tr["traceEvents"]:
+                    if e.get("cat") in ("gpu_memcpy", "gpu_memset") and isinstance(e.get("args"), dict) and e["args"].get("stream") == s1:
+                        e["pid"] = 1
+                        e["args"]["device"] = 1
+        if rnd.random() < 0.25:
             # copy types beyond the three everyday ones: peer-to-peer, host-to-host (each type has a series of its own)
             for e in tr["traceEvents"]:
                 if e.get("cat") == "gpu_memcpy" and rnd.random() < 0.4:
